@@ -7,27 +7,8 @@ From Verif.proofs Require Import AvmResourcesFill AvmResourcesAvail AvmResources
 Import ListNotations.
 Open Scope N_scope.
 
-(* ---------------------------------------------------------------- the unnamed-access quota = number of empty references *)
-Definition is_nil (b : bytes) : bool := match b with [] => true | _ => false end.
-Definition rref_empty (rr : rref) : bool :=
-  match rr with
-  | REmpty => true
-  | RAddr a | RAsset a | RApp a => a =? 0
-  | RHold a s | RLoc a s => (a =? 0) && (s =? 0)
-  | RBox i nm => (i =? 0) && is_nil nm
-  end.
-Definition box_empty (br : N * bytes) : bool := (fst br =? 0) && is_nil (snd br).
-Definition empty_refs (t : txn) : N :=
-  match t with
-  | TAppl _ ap =>
-      match ap_access ap with
-      | Some l => N.of_nat (length (filter rref_empty l))
-      | None => N.of_nat (length (filter box_empty (ap_boxes ap)))
-      end
-  | _ => 0
-  end.
-Definition group_empty_refs (g : list txn) : N := fold_left (fun acc t => acc + empty_refs t) g 0.
-
+(* ---------------------------------------------------------------- the unnamed-access quota = number of empty
+   references (AvmResourcesSpec.group_empty_refs) *)
 Section Count.
 Variable appaddr : N -> addr.
 
